@@ -52,6 +52,14 @@ Definition bank_output (stmts : list stmt) (o : string) : Prop :=
     In (SBank name regs) stmts /\ utf8_chars name "" = [inp; outp] /\
     In (rname, w, dflt) regs /\ o = (outp ++ "_" ++ rname)%string.
 
+(* n is a control signal left to its default: stall_O or bubble_O of a declared bank
+   "register iO {...}" that the program does not assign (it is 0 throughout) *)
+Definition defaulted_control (stmts : list stmt) (n : string) : Prop :=
+  exists name regs inp outp,
+    In (SBank name regs) stmts /\ utf8_chars name "" = [inp; outp] /\
+    (n = ("stall_" ++ outp)%string \/ n = ("bubble_" ++ outp)%string) /\
+    ~ In n (assigned_names stmts).
+
 (* a built-in component is in use when the program assigns every one of its inputs *)
 Definition component_in_use (stmts : list stmt) (ff : fixed_fn) : Prop :=
   forall i, In i (map fst (ff_ins ff)) -> In i (assigned_names stmts).
@@ -99,8 +107,8 @@ Section LoopSpec.
 
   (* ---- 1. the one-step relations ---------------------------------------------------------- *)
   (* b reads a directly:
-     - "b = e" is in the program, e mentions a, and a is neither the output of a register bank
-       nor a constant; or
+     - "b = e" is in the program, e mentions a, and a is neither the output of a register bank,
+       nor a control signal (stall_O / bubble_O) the program leaves unassigned, nor a constant; or
      - a built-in component that is in use has output b and a among its inputs (for the compiled
        table: reg_srcA -> reg_outputA, reg_srcB -> reg_outputB, mem_addr/mem_readbit ->
        mem_output, pc -> i10bytes).
@@ -109,7 +117,7 @@ Section LoopSpec.
   Inductive reads_directly (stmts : list stmt) (b a : string) : Prop :=
   | rd_assign e :
       assigned_to stmts b e -> In a (refs e) ->
-      ~ bank_output stmts a -> ~ In a (const_names stmts) ->
+      ~ bank_output stmts a -> ~ defaulted_control stmts a -> ~ In a (const_names stmts) ->
       reads_directly stmts b a
   | rd_builtin ff w :
       In ff fixed -> component_in_use stmts ff ->
@@ -207,7 +215,8 @@ Section LoopSpec.
       t_errs t ++ unset_errors s t (fold_left (fun l x => add_set x l) (all_in_names (t_banks t))
                                               (s_needed s)) = [] /\
       snd (fold_left (preprocess_one f consts (s_assigns s)) fixed
-                     (assign_graph (s_assigns s) (all_out_names (t_banks t) ++ map fst consts),
+                     (assign_graph (s_assigns s)
+                                   (all_out_names (t_banks t) ++ t_defaulted t ++ map fst consts),
                       [], [], [])) = [].
 
   (* the rejection is a WireLoop exactly when the builder reaches a sorter that meets a cycle *)
